@@ -10,10 +10,10 @@ CONSTANTS
   Decs <- DecsSleep
   BFaults <- BFaultsNone
   Ras <- RasNone
-  Modes = {"exec"}
+  Modes = {"call", "exec"}
   RunGaps <- GapsNone
-  NRuns = 2
-  Configs <- ConfigsC01Small
+  NRuns = 1
+  Configs <- ConfigsC01
   RecordHist = TRUE
 INVARIANT NoViolation
 INVARIANT ExportBehaviours
